@@ -12,8 +12,10 @@ generated histories reach. Each condition is the Go text of the clause the model
 
 * x/assets `validateOpItem`: `a.total + a.pending ≤ tot` is `!(TotalAmount.Add(PendingUndelegationAmount).GT(totalStaking))`,
   `a.opShare ≤ a.totalShare` is `!(OperatorShare.GT(TotalShare))`; `validateDepItem`, `validateTokens`, `validateChains` likewise;
-* x/operator `validateUSDItem`: `0 ≤ self/total/active` is `!(… .IsNegative() || …)`, `total ≤ v` is `!TotalUSDValue.GT(avsUSDValue.Amount)`,
-  `self ≤ total`, `active ≤ total`; `validateAvsUsd`: `0 ≤ amount`, AVS in the opted map; `validateOptStates`: `inH ≤ outH`
+* x/operator `validateUSDItem` (code as it is, `codeOpValCfg`): `0 ≤ self/total/active` is `!(… .IsNegative() || …)`, a missing
+  AVS value reads as zero (`!ok` no longer returns an error: F-18o repair), `active ≤ v` is `!ActiveUSDValue.GT(avsUSDValue.Amount)`
+  (F-18p repair; before: TotalUSDValue), `self ≤ total`, `active ≤ total`; `validateAvsUsd`: `0 ≤ amount`, AVS in the opted map
+  or amount zero (`!ok && !(IsNil() || IsZero())`: F-18r repair); `validateOptStates`: `inH ≤ outH`
   is `!(OptedOutHeight < OptedInHeight)`; `validateKeyRecords`: the three map look-ups;
 * x/operator `fillEarnings`: `if EarningsAddr == "" { EarningsAddr = OperatorAddress }`;
 * x/exomint / x/feedistribution `exportMint` / `exportDistr`: the exported Params are the stored ones.
@@ -33,8 +35,8 @@ theorem C18_tie_operator_validate_guards : operatorValidateGuards = [
   ("ValidateOperators", ["_, found := operators[address]; found", "err != nil", "op.OperatorInfo.EarningsAddr != \"\"", "err != nil", "op.OperatorInfo.ClientChainEarningsAddr != nil", "_, found := lzIDs[lzID]; found", "!common.IsHexAddress(info.ClientChainEarningAddr)", "op.OperatorInfo.Commission.CommissionRates.Rate.IsNil() || op.OperatorInfo.Commission.CommissionRates.MaxRate.IsNil() || op.OperatorInfo.Commission.CommissionRates.MaxChangeRate.IsNil()", "err := op.OperatorInfo.Commission.Validate(); err != nil"]),
   ("ValidateOperatorConsKeyRecords", ["_, err := sdk.AccAddressFromBech32(addr); err != nil", "_, found := operatorRecords[addr]; found", "_, opFound := operators[addr]; !opFound", "!utils.IsValidChainIDWithoutRevision(chainID)", "wrappedKey := keytypes.NewWrappedConsKeyFromHex(chain.ConsensusKey); wrappedKey == nil", "_, found := keysByChainID[chainID][chain.ConsensusKey]; found"]),
   ("ValidateOptedStates", ["err != nil", "_, ok := operators[operator]; !ok", "state.OptInfo.OptedOutHeight < state.OptInfo.OptedInHeight", "!common.IsHexAddress(avsAddr)", "err != nil"]),
-  ("ValidateAVSUSDValues", ["!common.IsHexAddress(avsUSDValue.AVSAddr)", "_, ok := optedAVS[avsUSDValue.AVSAddr]; !ok", "avsUSDValue.Value.Amount.IsNil() || avsUSDValue.Value.Amount.IsNegative()", "err != nil"]),
-  ("ValidateOperatorUSDValues", ["operatorUSDValue.OptedUSDValue.SelfUSDValue.IsNil() || operatorUSDValue.OptedUSDValue.TotalUSDValue.IsNil() || operatorUSDValue.OptedUSDValue.ActiveUSDValue.IsNil()", "operatorUSDValue.OptedUSDValue.SelfUSDValue.IsNegative() || operatorUSDValue.OptedUSDValue.TotalUSDValue.IsNegative() || operatorUSDValue.OptedUSDValue.ActiveUSDValue.IsNegative()", "err != nil", "_, ok := operators[operator]; !ok", "!ok", "operatorUSDValue.OptedUSDValue.TotalUSDValue.GT(avsUSDValue.Amount)", "operatorUSDValue.OptedUSDValue.SelfUSDValue.GT(operatorUSDValue.OptedUSDValue.TotalUSDValue)", "operatorUSDValue.OptedUSDValue.ActiveUSDValue.GT(operatorUSDValue.OptedUSDValue.TotalUSDValue)", "err != nil"]),
+  ("ValidateAVSUSDValues", ["!common.IsHexAddress(avsUSDValue.AVSAddr)", "_, ok := optedAVS[avsUSDValue.AVSAddr]; !ok && !(avsUSDValue.Value.Amount.IsNil() || avsUSDValue.Value.Amount.IsZero())", "avsUSDValue.Value.Amount.IsNil() || avsUSDValue.Value.Amount.IsNegative()", "err != nil"]),
+  ("ValidateOperatorUSDValues", ["operatorUSDValue.OptedUSDValue.SelfUSDValue.IsNil() || operatorUSDValue.OptedUSDValue.TotalUSDValue.IsNil() || operatorUSDValue.OptedUSDValue.ActiveUSDValue.IsNil()", "operatorUSDValue.OptedUSDValue.SelfUSDValue.IsNegative() || operatorUSDValue.OptedUSDValue.TotalUSDValue.IsNegative() || operatorUSDValue.OptedUSDValue.ActiveUSDValue.IsNegative()", "err != nil", "_, ok := operators[operator]; !ok", "operatorUSDValue.OptedUSDValue.ActiveUSDValue.GT(avsUSDValue.Amount)", "operatorUSDValue.OptedUSDValue.SelfUSDValue.GT(operatorUSDValue.OptedUSDValue.TotalUSDValue)", "operatorUSDValue.OptedUSDValue.ActiveUSDValue.GT(operatorUSDValue.OptedUSDValue.TotalUSDValue)", "err != nil"]),
   ("ValidateSlashStates", ["err != nil", "_, ok := operators[operator]; !ok", "_, ok := avs[avsAddr]; !ok", "slash.Info.EventHeight > slash.Info.SubmittedHeight", "slash.Info.SlashProportion.IsNil() || slash.Info.SlashProportion.LTE(sdkmath.LegacyNewDec(0))", "slash.Info.ExecutionInfo.SlashProportion.IsNil() || slash.Info.ExecutionInfo.SlashProportion.IsNegative()", "slash.Info.ExecutionInfo.SlashValue.IsNil() || slash.Info.ExecutionInfo.SlashValue.IsNegative()", "slashFromUndelegation.Amount.IsNil() || slashFromUndelegation.Amount.LTE(sdkmath.NewInt(0))", "err != nil", "slashFromAssetsPool.Amount.IsNil() || slashFromAssetsPool.Amount.LTE(sdkmath.NewInt(0))", "err != nil", "err != nil"]),
   ("ValidatePrevConsKeys", ["err != nil", "!utils.IsValidChainIDWithoutRevision(chainID)", "_, ok := operators[operator]; !ok", "wrappedKey := keytypes.NewWrappedConsKeyFromHex(prevConsKey.ConsensusKey); wrappedKey == nil", "err != nil"]),
   ("ValidateOperatorKeyRemovals", ["err != nil", "_, ok := operators[operator]; !ok", "err != nil"]),
